@@ -1,6 +1,6 @@
 """E3 query for C13, semantic form (written after round-7 seed r7_c13_c, which rewrote the function as a lockstep walk):
-c13_news_semantic — `Store::has_news_for_us` executed (PMExec) over K1 <= 2 of OUR head rows (as `get_latest_for_each_author`
-  yields them: ascending by author, all Ok) and K2 <= 2 heads of the PEER's report (ascending by author, as a B-tree map iterates),
+c13_news_semantic — `Store::has_news_for_us` executed (PMExec) over K1 <= 2 (thorough tier: <= 4) of OUR head rows (as `get_latest_for_each_author`
+  yields them: ascending by author, all Ok) and K2 <= 2 (thorough: <= 4) heads of the PEER's report (ascending by author, as a B-tree map iterates),
   authors and timestamps symbolic integers.  Whatever way the function computes it — by building our head set and asking
   `theirs.has_news_for(ours)` (answered here from the set that was actually built: the law of `has_news_for` itself is
   c13_heads_news) or by walking both sequences — on every feasible path that succeeds the answer is
@@ -12,6 +12,9 @@ import re
 from mirsmt import Smt, solve, mk_deref, mk_v2b, split_sexpr_args
 from stdmodels import PMExec, Inconclusive, std_models, _deep, seq_next
 from queries_c05 import _find
+
+THOROUGH = __import__("os").environ.get("VERIF_E3_TIER", "quick") == "thorough"
+KS = (0, 1, 2, 3, 4) if THOROUGH else (0, 1, 2)   # rows of ours / heads of theirs per run
 
 
 def _spec(K1, K2):
@@ -29,8 +32,8 @@ def q_c13_news_semantic(bodies):
         return dict(name=name, property="C13", verdict="inconclusive", detail="has_news_for_us not found uniquely (%d)" % len(hits), functions=[])
     body = hits[0]
     problems, nq, ncases, funcs, succ = [], 0, 0, set(), 0
-    for K1 in (0, 1, 2):
-        for K2 in (0, 1, 2):
+    for K1 in KS:
+        for K2 in KS:
             smt = Smt()
             for f, n in (("C_Ok", 1), ("C_Err", 1), ("C_Some", 1), ("C_Continue", 1), ("C_Break", 1), ("C_seq", 1), ("C_tuple2", 2), ("C_tuple3", 3), ("discr", 1), ("conv", 1), ("HSET", 1), ("mk_tuple2", 2)):
                 smt.fun(f, n)
